@@ -13,6 +13,30 @@ ENGINES = [
 ]
 
 CHECKS = [
+    {"id": "C03", "engine": "E3 algebraic value numbering",
+     "technique": "canonical trigonometric-polynomial normal forms of the constructors vs products of elementary rotations; reader/writer substitution for the inverses; sign-case enumeration of _arctan2",
+     "text": "All six rotation constructors of both modules are compared entry-wise (exact identities in Q[cos,sin]/(s^2+c^2-1)) "
+             "with the documented compositions, which the checker verifies to be proper rotations in the same algebra - so "
+             "orthonormality, det = +1 and the documented composition hold for all real arguments. u_to_rod / u_to_euler are "
+             "decided as reader/writer agreement on all three branches, _arctan2 on all nine sign cases, the output ranges from "
+             "the wraps, and the near-gimbal accuracy clause through the ratio of the two thresholds. Floating-point accuracy "
+             "of the inverses beyond that threshold rule is not decided.",
+     "note": "Trusted: numpy trig functions; refs/rotations.py (elementary rotations, Rodrigues and quaternion formulas); "
+             "sin(PHI) >= 0 on [0, pi]."},
+    {"id": "C12", "engine": "E0 tables + E6 table algebra + E3",
+     "technique": "table extraction + exact group axioms and pairing identities; template match of rotations(); E3 for the Umis trace formula",
+     "text": "The seven permutation tables are extracted and checked exactly (orders, unimodularity, closure over all pairs, no "
+             "duplicates); each arm of rotations() must be perm' (shown a proper rotation and paired on a basis of conforming "
+             "B) or B perm^-1 B^-1 with a hexagonal B (shown orthogonal through the hexagonal reciprocal metric); the ROTATIONS "
+             "cache and Umis's trace/arccos/clip formula are compared by shape and by E3. The invariances of the angle multiset "
+             "are paper consequences.",
+     "note": "Trusted: numpy elementwise product/sum/clip/arccos; C01's B shape for the conforming bases."},
+    {"id": "C16", "engine": "E0 tables + E3",
+     "technique": "table extraction + arithmetic on the extracted literals; E3 for the reader",
+     "text": "Complete for the property as stated: all 94 rows are read from the source; f(0) = Z within 0.1, strict monotone "
+             "decrease from the signs of a_i*b_i (analytic), positivity on [0,2] from the end point, and FormFactor's formula "
+             "by E3.",
+     "note": "Trusted: atomic numbers of H..Pu by symbol; math.exp in the checker."},
     {"id": "C14", "engine": "E1 sibling equivalence + E3",
      "technique": "normalised-AST comparison of the 41 sibling pairs; E3 normal-form equality up to the tau-weight signature for scale-sensitive pairs",
      "text": "Complete for the property as stated over the reals: the 41 pairs are enumerated; pairs that are scale-insensitive "
